@@ -106,6 +106,63 @@ pub fn drop_case(entries: u32, flags: u32, used: bool, interpose: bool, r: &mut 
         r.note(format!("harness: ring fd {ring_fd} vs logged io_uring_setup result {setup_fd:?}"));
     }
     r.outcome(&format!("setup:{}-mappings", created.len()));
+    // every mapping at least as long (in pages — a mapping always covers whole pages) as the kernel's own
+    // offsets require, and the arrays the kernel and the wrapper index lie inside mappings of the ring
+    if let Some(kp) = crate::ops_raw::raw_params(entries, flags, SQ_IDLE_MS) {
+        let with_off: Vec<(u64, u64, u64)> = setup_log.iter().filter(|c| c.nr == libc::SYS_mmap && c.ret > 0).map(|c| (c.ret as u64, c.args[1], c.args[5])).collect();
+        let single = kp.features & 1 != 0;
+        let mut byte_short = false;
+        for (addr, len, off) in &with_off {
+            let (what_map, need) = match *off {
+                0 => ("SQ ring", if single { kp.need_sq_ring().max(kp.need_cq_ring()) } else { kp.need_sq_ring() }),
+                0x800_0000 => ("CQ ring", kp.need_cq_ring()),
+                0x1000_0000 => ("SQE array", kp.need_sqes()),
+                _ => continue,
+            };
+            if page_up(*len) < page_up(need) {
+                r.violation(
+                    "C18:setup:ring-mapping-too-short",
+                    format!(
+                        "requested {entries} entries, flags {}: the kernel allocated sq_entries={} cq_entries={} with sq_off.array={:#x} cq_off.cqes={:#x}; the {what_map} mapping [{addr:#x}+{len:#x}] is shorter than the {need:#x} bytes those offsets require (SQ index array ends at {:#x}, CQE array at {:#x})",
+                        flags_name(flags), kp.sq_entries, kp.cq_entries, kp.sq_off.array, kp.cq_off.cqes, kp.need_sq_ring(), kp.need_cq_ring()
+                    ),
+                    cj.clone(),
+                );
+            } else if *len < need {
+                byte_short = true;
+            }
+        }
+        r.outcome(if byte_short { "setup:a-mapping-length-short-in-bytes-but-same-pages" } else { "setup:mapping-lengths-cover-kernel-offsets" });
+        // /proc/self/maps: [sq_array, +4*sq_entries) and the CQE array inside io_uring mappings
+        let um = crate::ops_raw::uring_maps();
+        let inside = |a: u64, b: u64| {
+            // union of the (possibly adjacent) io_uring mappings
+            let mut cur = a;
+            let mut v: Vec<&(u64, u64, u64)> = um.iter().collect();
+            v.sort();
+            for m in v {
+                if m.0 <= cur && cur < m.1 {
+                    cur = m.1;
+                }
+            }
+            cur >= b
+        };
+        let sq_base = with_off.iter().find(|m| m.2 == 0).map(|m| m.0);
+        let cq_base = with_off.iter().find(|m| m.2 == 0x800_0000).map(|m| m.0).or(sq_base);
+        if let (Some(sb), Some(cb)) = (sq_base, cq_base) {
+            let sq_arr = (sb + kp.sq_off.array as u64, sb + kp.need_sq_ring());
+            let cqes = (cb + kp.cq_off.cqes as u64, cb + kp.need_cq_ring());
+            for (name, rg) in [("SQ index array", sq_arr), ("CQE array", cqes)] {
+                if !inside(rg.0, rg.1) {
+                    r.violation(
+                        "C18:setup:ring-mapping-too-short",
+                        format!("requested {entries} entries, flags {}: the {name} [{:#x}, {:#x}) does not lie inside the ring's mappings {:x?} (/proc/self/maps)", flags_name(flags), rg.0, rg.1, um),
+                        cj.clone(),
+                    );
+                }
+            }
+        }
+    }
     // requested vs. allocated size (raw io_uring_setup, independent of the wrapper): the SQE array mapping must
     // cover every slot the kernel allocated, not just the requested ones
     let kernel = crate::ops_raw::kernel_ring_entries(entries);
@@ -249,11 +306,11 @@ pub fn drop_case(entries: u32, flags: u32, used: bool, interpose: bool, r: &mut 
     "accepted".into()
 }
 
-pub const SIZES: &[u32] = &[1, 2, 3, 4, 5, 6, 7, 8, 64];
+pub const SIZES: &[u32] = &[1, 2, 3, 4, 5, 6, 7, 8, 64, 512, 513, 1000, 1024, 2048, 4096, 32768];
 
 pub fn run(args: &Args) -> Report {
     let t0 = now();
-    let sizes: Vec<u32> = if args.thorough { vec![1, 2, 3, 4, 5, 6, 7, 8, 12, 16, 64, 100, 256, 1024, 4096] } else { SIZES.to_vec() };
+    let sizes: Vec<u32> = if args.thorough { vec![1, 2, 3, 4, 5, 6, 7, 8, 12, 16, 64, 100, 256, 512, 513, 1000, 1024, 2048, 4096, 8192, 16384, 32768] } else { SIZES.to_vec() };
     let mut items = Vec::new();
     for flags in flag_candidates() {
         let sizes = sizes.clone();
